@@ -88,6 +88,7 @@ def run(model, rep):
     sources = dict(size_e2e.probes())
     sources.update(('compose: ' + k, v) for k, v in compose_e2e.PROBES.items())
     sources.update(('idiom: ' + k, v) for k, v in rename_e2e.IDIOM_PROBES.items())
+    sources.update(('name reuse: ' + k, v) for k, v in rename_e2e.REUSE_PROBES.items())
     for (cls_, field), srcs in rename_e2e.FORM_PROBES.items():
         sources['binding forms: %s.%s' % (cls_, field)] = '\n'.join(s_.replace('def f', 'def f%d' % i_).replace('class K', 'class K%d' % i_) for i_, s_ in enumerate(srcs))
     for label, source in sorted(sources.items()):
